@@ -15,8 +15,8 @@ UNPROVED = ["'changes sign' is stated as: simple root (genuinely quadratic with 
             "the theorems about pieces assume that no cut is skipped by the 1e-8 duplicate test (NoSkip; discharged by noSkip_of_gaps for cuts at least 1e-8 apart) — coincident x- and y-extremes are sampled",
             "closedness / node preservation of addExtremes on whole paths — sampled (per-segment chain theorem proved)",
             "float residuals (theorems are over the reals)"]
-ASSUMPTIONS = ["math.sqrt real", "the monotonicity theorems are stated for the positional model, which is the dict model for paths with pairwise different segments (splitAtPointsDict_eq); paths with repeated segments go through the dict model in the correspondence and through cutSeg_cons_dup"]
-LEVEL_TEXT = ("theorems: cubic_extremes_mem_iff / quad_findDRoots_mem (the regenerated solver + the sort/filter glue report exactly the simple roots of x' or y' in [0.01,0.99]; sorted), "
+ASSUMPTIONS = ["math.sqrt real"]
+LEVEL_TEXT = ("theorems: addExtremesDict_eq (splitAtPoints clusters its split list in a dict keyed by segment VALUE; for addExtremes that dict model equals the positional model on EVERY path, repeated segments included: cutSeg_stutter, sort_copies; pinned_repeated_segment_counterexample: F28), cubic_extremes_mem_iff / quad_findDRoots_mem (the regenerated solver + the sort/filter glue report exactly the simple roots of x' or y' in [0.01,0.99]; sorted), "
               "none for a line; cutSeg_retrace (pieces of the split walk evaluate to the original at lo_j + s(hi_j-lo_j), including the mapx re-mapping), "
               "cutSeg_chain (for every cut list the pieces are a connected chain from the segment's start to its end, same kind), noSkip_of_gaps; "
               "C03M.addExtremes_monotone (every piece is monotone or antitone in x and in y on [0,1] unless a simple root of that derivative lies in the first/last 1 % strictly inside the piece: "
